@@ -96,6 +96,11 @@ fn run_job(job: &Value, scratch: &str) -> Value {
         }
     }
     let engine = job["engine"].as_str().unwrap_or("bmc").to_string();
+    if engine == "mc-tool" {
+        let mut r = crate::mctool::run_tool_job(job, scratch);
+        r["ms"] = json!(t0.elapsed().as_millis() as u64);
+        return r;
+    }
     let persona = job["persona"].as_str().unwrap_or("z3").to_string();
     let k = job["k"].as_u64().unwrap_or(4);
     let check_constraints = job["check_constraints"].as_bool().unwrap_or(false);
@@ -146,13 +151,13 @@ fn run_job(job: &Value, scratch: &str) -> Value {
 pub fn main() {
     install_panic_hook();
     // reference solvers first on PATH
-    let dir = std::env::var("PV_SOLVER_DIR").unwrap_or_else(|_| "/verif/bin/solvers".to_string());
+    let dir = std::env::var("PV_SOLVER_DIR").unwrap_or_else(|_| format!("{}/bin/solvers", pvcore::run::verif_root()));
     let path = std::env::var("PATH").unwrap_or_default();
     // SAFETY: single threaded at this point
     unsafe {
         std::env::set_var("PATH", format!("{dir}:{path}"));
     }
-    let scratch = format!("/verif/scratch/w{}", std::process::id());
+    let scratch = format!("{}/scratch/w{}", pvcore::run::verif_root(), std::process::id());
     std::fs::create_dir_all(&scratch).expect("scratch dir");
     let stdin = std::io::stdin();
     let mut out = std::io::stdout();
